@@ -44,6 +44,7 @@ struct Cluster {
     partitions: u16,
     nodes: Vec<Node>,
     delay_ms: u64,
+    confirm_delay_ms: u64,
 }
 
 fn free_port() -> u16 {
@@ -56,7 +57,7 @@ impl Cluster {
         while ports.len() < 2 * n { ports.insert(free_port()); }
         let ports: Vec<u16> = ports.into_iter().collect();
         let nodes = (0..n).map(|i| Node { idx: i, dir: root.join(format!("node{i}")), client_port: ports[2 * i], cluster_port: ports[2 * i + 1], child: None, stopped: false, restarts: 0 }).collect();
-        Cluster { server: server.to_string(), root: root.to_path_buf(), n, rf, partitions, nodes, delay_ms }
+        Cluster { server: server.to_string(), root: root.to_path_buf(), n, rf, partitions, nodes, delay_ms, confirm_delay_ms: 0 }
     }
     fn config_path(&self, i: usize) -> PathBuf { self.root.join(format!("node{i}.toml")) }
     fn write_config(&self, i: usize) {
@@ -78,7 +79,10 @@ impl Cluster {
             .env("SIERRA_VERIF_EVENTLOG", self.nodes[i].dir.join("events.log"))
             .env("RUST_BACKTRACE", "0")
             .stdin(Stdio::null()).stdout(Stdio::from(log.try_clone().unwrap())).stderr(Stdio::from(log));
-        if self.delay_ms > 0 { cmd.env("SIERRA_VERIF_DELAYS", format!("coord.after_local_append={}", self.delay_ms)); }
+        let mut delays = Vec::new();
+        if self.delay_ms > 0 { delays.push(format!("coord.after_local_append={}", self.delay_ms)); }
+        if self.confirm_delay_ms > 0 { delays.push(format!("coord.before_confirm={}", self.confirm_delay_ms)); }
+        if !delays.is_empty() { cmd.env("SIERRA_VERIF_DELAYS", delays.join(",")); }
         let child = cmd.spawn().map_err(|e| format!("spawn server: {e}"))?;
         self.nodes[i].child = Some(child);
         self.nodes[i].stopped = false;
@@ -172,15 +176,22 @@ fn read_events(dir: &Path) -> Vec<(String, Vec<u64>)> {
 fn run_once(args: &Args, rep: &mut Report, run_seed: u64, server: &str) {
     let mut rng = Rng::new(run_seed);
     let thorough = args.tier.is_thorough();
-    let n = if thorough && rng.chance(1, 3) { 5 } else { 3 };
-    let rf = 3u8;
-    let quorum = 2u8;
-    let partitions = 8u16;
+    // 3 nodes / rf 3 mostly; 1 run in 4 (thorough 1 in 3) has 5 nodes, and half of those replicate to all 5 (quorum 3)
+    // (rf 3 on 5 nodes is not used: with rf < nodes the server's bucket placement disagrees with the topology's routing
+    // - the open C13 finding - and most writes fail for that reason alone)
+    let forced_n = args.opts.get("nodes").and_then(|x| x.parse::<usize>().ok());
+    let n = forced_n.unwrap_or(if rng.chance(1, if thorough { 3 } else { 4 }) { 5 } else { 3 });
+    let rf = if n == 5 { 5u8 } else { 3u8 };
+    let quorum = rf / 2 + 1;
+    let partitions = 16u16;
     let delay_ms = *rng.pick(&[0u64, 0, 20, 80]);
+    // delay between reaching quorum and recording the confirmation on the coordinator (hook coord.before_confirm)
+    let confirm_delay_ms = *rng.pick(&[0u64, 0, 30, 120]);
     let root = store::fresh_dir(&args.work, &format!("mn-{}-{}-{run_seed}", args.prop, args.shard));
     let mut cl = Cluster::new(server, &root, n, rf, partitions, delay_ms);
+    cl.confirm_delay_ms = confirm_delay_ms;
     let prop = args.prop.clone();
-    let witness_base = json!({"run_seed": run_seed, "nodes": n, "rf": rf, "partitions": partitions, "coordinator_delay_ms": delay_ms});
+    let witness_base = json!({"run_seed": run_seed, "nodes": n, "rf": rf, "partitions": partitions, "coordinator_delay_ms": delay_ms, "confirm_delay_ms": confirm_delay_ms});
     rep.evaluations += 1;
     // ---- formation ---------------------------------------------------------------------------------------
     // Nodes are started one at a time: when several nodes join at once, an OwnershipResponse computed from a
@@ -189,6 +200,10 @@ fn run_once(args: &Args, rep: &mut Report, run_seed: u64, server: &str) {
     // availability defect outside C10/C11, so the harness avoids it and, if a cluster still does not accept a
     // probe write through every node, restarts it (up to three attempts) before giving up as inconclusive.
     let streams = make_streams(&mut rng, partitions, 3);
+    // probe keys on partitions the workload does not use, a fresh one per probe round: a probe that fails its quorum
+    // leaves an unconfirmed event in the coordinator's log, after which that partition accepts nothing more
+    let probe_keys: Vec<(u128, u16)> = store::make_keys(&mut rng, partitions, 1).into_iter().filter(|(_, pid)| streams.iter().all(|(_, _, p)| p != pid)).collect();
+    let mut probe_round = 0usize;
     let mut formed = false;
     let mut last_probe = String::from("no node answered PING");
     let mut ids = store::Ids { counter: run_seed & 0xFFFF_FFFF };
@@ -196,6 +211,7 @@ fn run_once(args: &Args, rep: &mut Report, run_seed: u64, server: &str) {
         if attempt > 0 {
             rep.count("formation_retries", 1);
             cl.kill_all();
+            for i in 0..n { let _ = std::fs::remove_dir_all(&cl.nodes[i].dir); }
         }
         for i in 0..n {
             if let Err(e) = cl.start(i) { rep.inconclusive(e); return; }
@@ -203,11 +219,15 @@ fn run_once(args: &Args, rep: &mut Report, run_seed: u64, server: &str) {
             while t.elapsed() < Duration::from_secs(10) && !cl.ping(i) { std::thread::sleep(Duration::from_millis(50)); }
             std::thread::sleep(Duration::from_millis(700 + 500 * attempt));
         }
+        // let heartbeats and ownership messages settle before the first write
+        std::thread::sleep(Duration::from_millis(1500));
         let t0 = Instant::now();
-        while t0.elapsed() < Duration::from_secs(15) {
+        while t0.elapsed() < Duration::from_secs(if n > 3 { 30 } else { 15 }) {
             let mut ok = 0;
+            let (pk, ppid) = &probe_keys[probe_round % probe_keys.len()];
+            let s = &format!("probe-{ppid}");
+            probe_round += 1;
             for i in 0..n {
-                let (s, pk, _) = &streams[0];
                 let id = ids.with_hash(&mut rng, store::hash_of_key(*pk));
                 if let Ok(mut c) = Conn::connect(&cl.addr(i), Duration::from_secs(3)) {
                     let r = c.cmd(&[b"EAPPEND", s.as_bytes(), b"Probe", b"EVENT_ID", uuid_str(id).as_bytes(), b"PARTITION_KEY", uuid_str(*pk).as_bytes(), b"EXPECTED_VERSION", b"any", b"PAYLOAD", b"probe"]);
@@ -219,7 +239,8 @@ fn run_once(args: &Args, rep: &mut Report, run_seed: u64, server: &str) {
         }
     }
     if !formed {
-        rep.inconclusive(format!("cluster of {n} nodes did not accept a probe write through every node in three start attempts (last probe: {last_probe})"));
+        rep.count("clusters_not_formed", 1);
+        rep.note(format!("cluster of {n} nodes did not accept a probe write through every node in three start attempts (last probe: {last_probe})"));
         return;
     }
     rep.count("clusters_formed", 1);
@@ -286,6 +307,21 @@ fn run_once(args: &Args, rep: &mut Report, run_seed: u64, server: &str) {
     while t_run.elapsed() < Duration::from_millis(run_ms) {
         std::thread::sleep(Duration::from_millis(400 + rng.below(1200)));
         let victim = rng.usize_below(n);
+        if n == 5 && rng.chance(1, 2) {
+            // two replicas down at once for longer than the heartbeat time-out: with rf 5 exactly a quorum is left
+            let mut second = rng.usize_below(n);
+            while second == victim { second = rng.usize_below(n); }
+            let mut how = Vec::new();
+            for v in [victim, second] {
+                if rng.chance(1, 2) { cl.kill9(v); how.push((v, true)); schedule.push(format!("kill9 {v}")); } else { cl.signal(v, libc::SIGSTOP); how.push((v, false)); schedule.push(format!("stop {v}")); }
+            }
+            std::thread::sleep(Duration::from_millis(2500 + rng.below(1500)));
+            for (v, killed) in how {
+                if killed { if cl.start(v).is_ok() { cl.nodes[v].restarts += 1; schedule.push(format!("restart {v}")); } } else { cl.signal(v, libc::SIGCONT); schedule.push(format!("cont {v}")); }
+            }
+            rep.count("nemesis.two_nodes_down", 1);
+            continue;
+        }
         match rng.below(4) {
             0 | 1 => {
                 // crash: memory lost, disk kept; restart after a while (new alive_since => coordinators change)
@@ -426,6 +462,12 @@ fn run_once(args: &Args, rep: &mut Report, run_seed: u64, server: &str) {
                     rep.violation("C11:acked-write-not-on-a-quorum", format!("write acknowledged through node {} as partition {p} sequence {s} (event {:032x}, {} of {} in its transaction) is at that sequence on nodes {holders:?} only; found elsewhere at {elsewhere:?}; at that sequence the nodes hold {what_there:?}", o.node, event_id, k + 1, o.event_ids.len()), witness.clone());
                     continue;
                 }
+                // whoever coordinated it: an acknowledged write carries a quorum count on at least one disk
+                let best = (0..n).filter_map(|i| logs[i][&p].get(s as usize).filter(|e| e.event_id == *event_id).map(|e| e.count)).max().unwrap_or(0);
+                if best < quorum {
+                    rep.violation("C11:acked-write-has-a-quorum-count-on-no-node", format!("write acknowledged through node {} as partition {p} sequence {s} (event {:032x}) is stored on nodes {holders:?} but its highest confirmation count is {best} (< {quorum}): the coordinator answered before recording the confirmation", o.node, event_id), witness.clone());
+                    continue;
+                }
                 // the coordinator (hook H7) carries a quorum count
                 let coord = (0..n).find(|i| events[*i].iter().any(|e| e.0 == "coordinated" && e.1[0] == p as u64 && e.1[1] <= s && s <= e.1[2] && logs[*i][&p].get(s as usize).map(|x| (x.txn_id >> 64) as u64 == e.1[3] && x.txn_id as u64 == e.1[4]).unwrap_or(false)));
                 match coord {
@@ -461,8 +503,9 @@ fn main() {
     let mut rep = Report::new(&args.prop);
     vpc::quiet_panics();
     store::raise_fd_limit();
-    let Some(server) = args.opts.get("server_dev").cloned() else {
-        rep.inconclusive("no server binary given (--opt server_dev=...)");
+    // the optimised server: a cluster of 3-5 debug-built processes per shard mostly measures the machine
+    let Some(server) = args.opts.get("server_release").or(args.opts.get("server_dev")).cloned() else {
+        rep.inconclusive("no server binary given (--opt server_release=... or server_dev=...)");
         rep.write(&args);
         return;
     };
